@@ -1,5 +1,5 @@
 Require Import OPC.gen.GenTables OPC.gen.GenClosed OPC.gen.GenSites OPC.Uni OPC.Names OPC.NamesThm OPC.Codec OPC.Types OPC.TypesThm OPC.Imports OPC.ImportsThm
-               OPC.PyLit OPC.Sites OPC.SitesThm.
+               OPC.PyLit OPC.Sites OPC.SitesThm OPC.Signature.
 From Coq Require Import NArith List Bool Permutation. Import ListNotations. Open Scope N_scope.
 (* C01 is an aggregator and PARTIAL: "the whole file is in CPython's grammar" has no model here. What is proved are the
    ingredients that make the generated package well-formed; whole-file compile / import / tomllib are the search stage. *)
@@ -37,3 +37,22 @@ Print Assumptions C01_module_names_closed.
 (* ... and the regenerated fact that each kind, in each position, is closed (and every relative import resolves) in the probe packages *)
 Theorem C01_all_probe_modules_closed : gen_unprovided = [].
 Proof. exact all_probe_modules_closed. Qed.
+
+(* the parameter list of EVERY generated endpoint function (path parameters positional - without a default first -, `*` exactly when
+   something follows, keyword-only client / body / query / header / cookie parameters) is accepted by Python as soon as the names
+   are distinct, whatever defaults the parameters carry *)
+Theorem C01_signature_valid : forall e b, py_valid (sig_of e b) = names_ok e b.
+Proof. exact signature_valid. Qed.
+Theorem C01_star_exact : forall e b, star (sig_of e b) = true <-> kwonly (sig_of e b) <> [].
+Proof. exact star_exact. Qed.
+Theorem C01_positional_is_path_permuted : forall e b p, In p (positional (sig_of e b)) <-> In p (e_path e).
+Proof. exact positional_is_path_permuted. Qed.
+Print Assumptions C01_signature_valid.
+(* the star matters (a keyword list with an optional parameter before a required one is rejected without it), and the rule the
+   code used before repair b9d7aba (path order) was not valid for a default before a parameter without one *)
+Theorem C01_star_needed : exists e, py_valid (sig_of e false) = true /\
+  py_valid {| positional := positional (sig_of e false); star := false; kwonly := kwonly (sig_of e false) |} = false.
+Proof. exact star_needed. Qed.
+Theorem C01_path_order_rule_refuted : exists ps, defaults_monotone false ps = false /\
+  defaults_monotone false (filter (fun p => negb (sp_default p)) ps ++ filter sp_default ps) = true.
+Proof. exact path_order_rule_refuted. Qed.
